@@ -349,6 +349,38 @@ func (s *Solver) Check(extra []*Term, wantModel bool) (SatResult, map[string]Mod
 	return r, model
 }
 
+// CheckBrief: one attempt with a small budget, no fallback, no retry (used for optional work such as choosing a
+// prettier counterexample model; "unknown" simply means the optional step is skipped).
+func (s *Solver) CheckBrief(extra []*Term, wantModel bool, ms int) (SatResult, map[string]ModelVal) {
+	if s.dead {
+		return Unknown, nil
+	}
+	for _, e := range extra {
+		s.declare(e)
+	}
+	s.send("(push 1)")
+	for _, e := range extra {
+		s.send("(assert " + s.ts.Print(e) + ")")
+	}
+	saved := s.timeoutMs
+	s.timeoutMs = ms
+	s.send(fmt.Sprintf("(set-option :timeout %d)", ms))
+	r := s.checkSat()
+	s.timeoutMs = saved
+	if s.dead {
+		return Unknown, nil
+	}
+	s.send(fmt.Sprintf("(set-option :timeout %d)", saved))
+	var model map[string]ModelVal
+	if r == Sat && wantModel {
+		model = s.getModel()
+	}
+	if !s.dead {
+		s.send("(pop 1)")
+	}
+	return r, model
+}
+
 type ModelVal struct {
 	Sort string `json:"sort"`
 	// exactly one of:
